@@ -26,7 +26,7 @@ class Registry(V.Family):
     driver_pkg = "container"
     monitor = ("ContainerTrace.tla", "ContainerTrace.cfg")
     monitor_constants = FIXED
-    step_keys = ("act", "S", "c", "v", "nm", "meta", "c2", "v2", "nm2", "meta2", "kb", "ash", "o", "k", "amt")
+    step_keys = ("act", "S", "c", "v", "nm", "meta", "c2", "v2", "nm2", "meta2", "kb", "rb", "ash", "o", "k", "amt")
     reset_keys = ("n", "scale", "src", "verlen")
     assume = COMMON_ASSUME + [
         "the Container alias TLD is registered by the committee before Container is deployed (the deploy transaction of "
